@@ -6,7 +6,7 @@
 From Coq Require Import ZArith List Bool.
 From RP Require Sched.Model Sched.NodeMap Sched.Inv Sched.SchedProofs Sched.RunProofs
                Sched.LiveProofs Sched.CancelProofs Sched.ConsProofs Sched.CancelRunProofs.
-From RP Require Exec.Model Exec.Oracle Exec.Local Exec.Proj Exec.Proofs Exec.CancelProofs Exec.ExamProofs Exec.PollProofs.
+From RP Require Exec.Model Exec.Oracle Exec.Local Exec.Proj Exec.Proofs Exec.CancelProofs Exec.ExamProofs Exec.PollProofs Exec.HandlerProofs.
 Import ListNotations.
 
 Module SchedSide.
@@ -140,7 +140,7 @@ Proof. vm_compute. split; reflexivity. Qed.
 End SchedSide.
 
 Module ExecSide.
-Import RP.Exec.Model RP.Exec.Oracle RP.Exec.Local RP.Exec.Proj RP.Exec.Proofs RP.Exec.CancelProofs RP.Exec.ExamProofs RP.Exec.PollProofs.
+Import RP.Exec.Model RP.Exec.Oracle RP.Exec.Local RP.Exec.Proj RP.Exec.Proofs RP.Exec.CancelProofs RP.Exec.ExamProofs RP.Exec.PollProofs RP.Exec.HandlerProofs.
 
 (* a named task that is running: once cancel_task has found its process running
    and taken it over, it is never collected and never failed; at quiescence it
@@ -240,5 +240,22 @@ Theorem C08_cancel_polled_clause_holds_in_model :
   forall sc sched s tr, run (init sc) sched = (s, tr) -> ok_cancel_polled (delivered sc) tr = true.
 Proof. exact model_cancel_polled. Qed.
 Print Assumptions C08_cancel_polled_clause_holds_in_model.
+
+(* the cancel handler examines every uid of every request: control_cb walks
+   the uid list of the message as received (not the component's shared cancel
+   list, from which the intake filter removes uids meanwhile), so at
+   quiescence the control thread has looked u up in self._tasks once for every
+   occurrence of u in the requests -- no named uid is skipped, whatever the
+   other threads do during the loop *)
+Theorem C08_handler_examines_every_named_uid :
+  forall sc sched s tr u,
+    run (init sc) sched = (s, tr) -> quiescent s = true -> n_lookups u tr = occ u (named sc).
+Proof. exact handler_covers. Qed.
+Print Assumptions C08_handler_examines_every_named_uid.
+
+Theorem C08_handler_covers_clause_holds_in_model :
+  forall sc sched s tr, run (init sc) sched = (s, tr) -> ok_handler_covers sc tr (quiescent s) = true.
+Proof. exact model_handler_covers. Qed.
+Print Assumptions C08_handler_covers_clause_holds_in_model.
 
 End ExecSide.
